@@ -1,11 +1,11 @@
 #!/bin/bash
 # Determinism campaign: every registered check is run twice at each of the given base seeds, once
 # with 16 workers and once with 5, and the digest over the event-log digests of all runs (in case
-# order) must be identical. Writes /verif/evidence/determinism.txt. Exit 2 on divergence.
+# order) must be identical. Writes /verif/validation/determinism.txt. Exit 2 on divergence.
 # usage: tools/determinism.sh [seed...]        (default: 1 7)
 cd /verif
 SEEDS=${@:-1 7}
-OUT=/verif/evidence/determinism.txt
+OUT=/verif/validation/determinism.txt
 echo "# determinism campaign $(date -u +%FT%TZ): check seed jobs=16 vs jobs=5 -> event_log_digest / evaluations" > $OUT
 rc=0
 for id in $(python3 -c "import json; print(' '.join(c['property_id'] for c in json.load(open('MANIFEST.json'))['checks']))"); do
